@@ -50,6 +50,14 @@ def tickStep (span m : Rat) : Rat :=
   else if err ≤ Gen.tickErr2 then step * Gen.tickMul2
   else step
 
+/-- the exact `err` sits (to 1e-12 relative) on one of the three thresholds: in floating point either branch may be
+taken, so such inputs are reported as ties by the driver and not judged -/
+def tickStepTie (span m : Rat) : Bool :=
+  if span ≤ 0 ∨ m ≤ 0 then false else
+  let step := pow10 (floorLog10 (span / m))
+  let err := m / span * step
+  [Gen.tickErr10, Gen.tickErr5, Gen.tickErr2].any (fun thr => decide (ratAbs (err - thr) ≤ thr / 1000000000000))
+
 /-- `(start, stop, step)` of `d3_scale_linearTickRange`; a zero span yields step 0 -/
 def tickRange (d0 d1 m : Rat) : Rat × Rat × Rat :=
   let e := extent d0 d1
